@@ -298,7 +298,9 @@ impl<StorageT: PrimInt> Rule<StorageT> {
             re = re.dfa_size_limit(sz)
         }
         if let Some(lim) = lex_flags.nest_limit {
-            re = re.nest_limit(lim)
+            // The user's limit was applied to the regex they wrote above: the wrapper group must
+            // not count against it.
+            re = re.nest_limit(lim.saturating_add(1))
         }
 
         let re = re.build()?;
